@@ -75,8 +75,8 @@ def run(ctx):
         f.write("SPECIFICATION Spec\nCONSTANTS\n KeyIds = {1, 2}\n BlkIds = {1, 2, 3}\n MaxOps = %d\nCONSTRAINT Emit\n" % depth)
     r = ctx.tlc("CipherObj", "cobj.cfg", workers=1, timeout=1500)
     behs = markers(r["out"], "BEH")
-    if len(behs) != 2 * 12 ** depth:
-        raise Infra("expected %d behaviours, got %d" % (2 * 12 ** depth, len(behs)))
+    if len(behs) != 2 * 14 ** depth:
+        raise Infra("expected %d behaviours, got %d" % (2 * 14 ** depth, len(behs)))
     tab = []
     for c in cases:
         cc = c["case"]
